@@ -6,18 +6,18 @@ from lxml import etree
 from harness.core import Result
 from harness import xsdgen, xmlcanon, enginea
 
-LEAN_MODULES = ["ZeepProofs.C03", "ZeepProofs.C01", "ZeepProofs.C01Choice", "ZeepProofs.C01Repeat", "ZeepProofs.C01All", "ZeepProofs.C03Deep"]
+LEAN_MODULES = ["ZeepProofs.C03", "ZeepProofs.C01", "ZeepProofs.C01Choice", "ZeepProofs.C01Repeat", "ZeepProofs.C01All", "ZeepProofs.C03Deep", "ZeepProofs.C12Attrs"]
 NS = "Zeep.Xsd."
 THEOREMS = [NS + t for t in ("c03_elem_roundtrip", "c03_flat_sequence_roundtrip", "c03_serialize_names", "c01_nested_record_roundtrip", "c01_record_roundtrip",
                              "c01_record_with_choices_roundtrip", "c01_record_with_choices_roundtrip_root",
                              "c01_record_with_repeated_sequences_roundtrip", "c01_record_with_repeated_sequences_roundtrip_root",
                              "c01_all_record_roundtrip", "c01_all_record_roundtrip_root",
-                             "acct", "c03_nothing_skipped", "c03_nothing_skipped_root", "c03_attributes_kept", "c03_item_attributes")]
+                             "acct", "c03_nothing_skipped", "c03_nothing_skipped_root", "c03_attributes_kept", "c03_item_attributes")] + ["Zeep.SchemaAttrs.c03_complex_nil_read_as_xsd_boolean", "Zeep.SchemaAttrs.c03_any_nil_never_reads_false_as_nil"]
 LEVEL = "proof"
 MANIFEST = dict(
     engine="A: lean/ZeepModel/Xsd/Parse.lean (+ harness/xsdgen.py, harness/enginea.py)",
     technique="Lean 4 model of zeep's greedy deque decoder on tree-unfolded schemas; round-trip theorems (decode of the reference serialisation is the instance) for element repetitions, flat sequences and records with element and choice members nested to any depth; the converse direction by the accounting invariant: strict acceptance accounts for every element at every depth of the document (c03_nothing_skipped, every wildcard-free nesting of sequence / choice / group, xsd:all at the top) and carries the declared attributes unchanged; differential tie on libxml2-valid documents generated independently of zeep (decoded value, strict acceptance, re-serialisation)",
-    text="For element declarations with any occurrence bounds, for flat sequences of distinctly named declarations and for records nested to any depth (ZeepProofs/C01.lean: sequences of single / optional / repeated leaf or record typed elements with attributes) the model's strict decoder is proved to return exactly the instance a reference serialisation came from, leaving the rest of the deque untouched; records may have non-repeating choice members (ZeepProofs/C01Choice.lean) and repeated nested sequences with any number of rounds (ZeepProofs/C01Repeat.lean), or xsd:all content (ZeepProofs/C01All.lean). Conversely (ZeepProofs/C03Deep.lean) for every DeepRegular schema - content models of any nesting of sequence / choice / group with any occurrence bounds, xsd:all at the top, to any depth through the element types - a document accepted in strict mode has every element at every depth decoded by a declaration of its parent's content model carrying its local name (nothing is passed over), and the declared attributes are carried over unchanged. The model is tied to zeep on every run: documents generated from the section-5 grammar independently of zeep (every occurrence class, choice branches, all-permutations, optional attributes, xsi:nil, prefix / default-namespace spellings), confirmed valid by libxml2, are decoded by zeep and by the model (value equality through the documented value-object conventions, call counts), then re-serialised by zeep and compared with the document (sibling order free only inside xsd:all).",
+    text="For element declarations with any occurrence bounds, for flat sequences of distinctly named declarations and for records nested to any depth (ZeepProofs/C01.lean: sequences of single / optional / repeated leaf or record typed elements with attributes) the model's strict decoder is proved to return exactly the instance a reference serialisation came from, leaving the rest of the deque untouched; records may have non-repeating choice members (ZeepProofs/C01Choice.lean) and repeated nested sequences with any number of rounds (ZeepProofs/C01Repeat.lean), or xsd:all content (ZeepProofs/C01All.lean). Conversely (ZeepProofs/C03Deep.lean) for every DeepRegular schema - content models of any nesting of sequence / choice / group with any occurrence bounds, xsd:all at the top, to any depth through the element types - a document accepted in strict mode has every element at every depth decoded by a declaration of its parent's content model carrying its local name (nothing is passed over), and the declared attributes are carried over unchanged. The model is tied to zeep on every run: documents generated from the section-5 grammar independently of zeep (every occurrence class, choice branches, all-permutations, optional attributes, xsi:nil, prefix / default-namespace spellings), confirmed valid by libxml2, are decoded by zeep and by the model (value equality through the documented value-object conventions, call counts), then re-serialised by zeep and compared with the document (sibling order free only inside xsd:all). Obligations c03_complex_nil_read_as_xsd_boolean / c03_any_nil_never_reads_false_as_nil (ZeepProofs/C12Attrs.lean) pin, against the regenerated Generated/SchemaAttrs.lean, how the decoder reads xsi:nil.",
     note="Proof coverage is partial: the round-trip theorems cover records with element / choice / repeated-sequence members; repeating choices, all, groups, wildcards, xsi:type / xsi:nil are modelled and tied, and covered by the nothing-skipped theorem where wildcard-free, but their round-trip theorems are not proved. Known findings K8 (empty complex element decodes to None), K14 (xsi:nil on optional / choice elements decodes to None and is lost on re-serialisation), K17 (wildcard content that is a declared global element decodes to that element's bare value, which xsd:any refuses to render) are listed in known_findings.json.",
     design_ref="DESIGN.md sections 5 and 6, C03",
 )
